@@ -450,6 +450,12 @@ class MarkdownNormalizer(Renderer):
                 else:
                     result += self._second_prefix.rstrip() + "\n"
 
+        if not element.children:
+            # An empty item is still an item: emit its marker (nothing else would).
+            result += self._prefix.rstrip() + "\n"
+            self._prefix = self._second_prefix
+            return result
+
         result += self.render_children(element)
 
         return result
